@@ -240,6 +240,39 @@ def rule_field_order(ctx):
                   'swapped' % (name, common_w, common_r), loc='%s:%d' % (rb.file, rb.line))
 
 
+def rule_decoder_domain(ctx):
+    """A decoder in utils::binio accepts every value its encoder can write: no comparison of the decoded value with a
+    constant may end in an error built in place (`if timestamp < 0 { return Err(..) }`); the encoders write any value
+    of the type. Tag switches (`0`/`1`/other) are the business of the record rules; the `Option` sentinels compare for
+    equality and end in `Ok(None)`."""
+    unknown = set(ctx.facts.unknown_functions())
+    n = 0
+    for b in ctx.facts.all_bodies():
+        if not b.file.endswith('utils/binio.rs') or not b.nid.endswith('binio::Parse>::parse'):
+            continue
+        n += 1
+        ctx.bodies.add(b.nid)
+        ty = re.sub(r' as utils::binio::Parse.*$', '', b.rec['id']).lstrip('<')
+        for s in b.calls('re:.'):
+            nm = norm(s.callee)
+            if nm in unknown:
+                # judged on the inlined body (second run); a helper that cannot be inlined stays reported
+                ctx.bad('K7', 'shape/unknown-helper:%s' % nm, 'the decoder of %s calls %s, a function the rule tables do not know' % (ty, nm), loc=s.loc())
+        for p in enumerate_paths(b, ctx.facts, max_visits=2):
+            o = p.outcome or ''
+            if p.kind != 'return' or not o.startswith('Result::Err('):
+                continue
+            for v, labs in p.cond_map().items():
+                base = tables.strip_suffix(v)
+                if base.startswith('cmp(') and 'parse(' in base and re.search(r'const\(-?\d+\)', base):
+                    ctx.bad('K7', 'decoder-rejects-writable-value:%s' % ty,
+                            'the decoder of %s returns an error (%s) depending on `%s` %s: the encoder writes every value of the type, so a '
+                            'record holding such a value is written but cannot be read back' % (ty, o[:80], base[:120], sorted(labs)),
+                            loc='%s:%d' % (b.file, b.line))
+    ctx.floor('K7', 'decoders in utils::binio', n, 15)
+    ctx.ok('K7', 'decoders-accept-encoder-range', '%d decoders: no value-range test ends in an error' % n)
+
+
 def rule_primitives(ctx):
     n = 0
     for ty in ('u32', 'u64', 'i64'):
@@ -303,4 +336,4 @@ def rule_lossy(ctx):
         ctx.ok('K7', 'lossy:Time:subsecond-dropped', 'Time codec keeps what it writes')
 
 
-RULES = [rule_option_sentinels, rule_field_order, rule_records, rule_primitives, rule_lossy]
+RULES = [rule_option_sentinels, rule_field_order, rule_records, rule_primitives, rule_decoder_domain, rule_lossy]
